@@ -137,6 +137,29 @@ Theorem C13_responder_once :
 Proof. exact responder_once. Qed.
 Print Assumptions C13_responder_once.
 
+(* The bounded event channel loses nothing: for every capacity and every interleaving of pushes
+   (only while there is room — otherwise the event loop stays parked) and pops by the user, the
+   events delivered, queued and still pending are, in this order, exactly the events produced, and
+   the queue never exceeds its capacity. *)
+Theorem C13_channel_nothing_lost :
+  forall (cap : nat) (o : list out) (ms : list rmove),
+    let st := relay_run cap o ms in
+    rl_delivered st ++ rl_queue st ++ rl_pending st = o /\ (length (rl_queue st) <= cap)%nat.
+Proof. exact relay_nothing_lost. Qed.
+Print Assumptions C13_channel_nothing_lost.
+
+(* dial() refused at once (NoAddressAvailable, TriedToDialSelf, TaskClosed, ...): the request
+   gets its single RequestFailed(Rejected(DialFailed(Some(_)))) in the same step and is queued
+   nowhere. *)
+Theorem C13_dial_refused_one_failure :
+  forall (s : pst) (p len tag : N) fb (ok : bool) (sid : N),
+    memN p (peers s) = false ->
+    snd (h_send s p true len tag fb ok false sid) = [OSent (next_rid s); OFail (next_rid s) E_DIAL_IMMEDIATE] /\
+    dials (fst (h_send s p true len tag fb ok false sid)) = dials s /\
+    active (fst (h_send s p true len tag fb ok false sid)) = active s.
+Proof. exact dial_refused_one_failure. Qed.
+Print Assumptions C13_dial_refused_one_failure.
+
 (* F-C13a on the unrepaired handler: two requests to peer 0 while it is being dialed, then the
    connection is established. Request 0 was handed out, is owed nowhere, was never answered and
    was never cancelled — the ledger clause inv_sent fails (repaired by the fix: commit). *)
